@@ -1056,6 +1056,28 @@ def scope_matrix():
     prog("bare-method-name-in-method", ["class Sc {", "\tfn value(self) -> int {", "\t\treturn 3", "\t}", "\tfn three(self) -> int {", "\t\treturn {USE}", "\t}", "}", "so = Sc()", "print so.three()"], ["value()", "value", "three()"])
     prog("bare-method-name-in-closure-of-method", ["class Sc {", "\tfn value(self) -> int {", "\t\treturn 3", "\t}", "\tfn three(self) -> int {", "\t\tq = fn() -> int {", "\t\t\treturn {USE}", "\t\t}", "\t\treturn q()", "\t}", "}", "so = Sc()", "print so.three()"], ["value()"])
     prog("use-before-declaration", ["print {USE}", "later = 2", "print later"], ["later"])
+
+    # a variable of an ENCLOSING scope declared again, with an annotation of ANOTHER type, inside a nested block (the site is the
+    # whole statement; the good form re-declares it with its own type)
+    def retype(tag, lines):
+        b = Builder(None, "main.ms")
+        b.add("print \"@START\"")
+        b.add("vis = 1")
+        b.add("count = 1")
+        for l in lines:
+            if "{DECL}" in l:
+                l = l.replace("{DECL}", b.site("scope", "count: int = 2", "scope", ["count: str = \"one\"", "count: bool = true", "count: float = 1.5", "count: [int...] = [1]", "count: int? = nil"]))
+            b.add(l)
+        b.add("print count + 1")
+        b.add("print \"@END\"")
+        out.append({"files": {"main.ms": PRELUDE + "\n".join(b.lines) + "\n"}, "sites": list(b.sites), "matrix": "scope|retype-in-" + tag})
+    retype("if", ["if vis == 1 {", "\t{DECL}", "}"])
+    retype("else", ["if vis == 2 {", "\tprint vis", "} else {", "\t{DECL}", "}"])
+    retype("else-if", ["if vis == 2 {", "\tprint vis", "} else if vis == 1 {", "\t{DECL}", "}"])
+    retype("while", ["n0 = 0", "while n0 < 1 {", "\tn0 = n0 + 1", "\t{DECL}", "}"])
+    retype("from", ["from 0 to 1 {", "\t{DECL}", "}"])
+    retype("nested-two-deep", ["if vis == 1 {", "\tfrom 0 to 1 {", "\t\t{DECL}", "\t}", "}"])
+    retype("same-scope", ["{DECL}"])
     return out
 
 
